@@ -85,13 +85,16 @@ func bigScript(w, h int, withString bool) []Op {
 	return ops
 }
 
-func bigCases(tier string, yield func(Case) bool) {
+func bigCases(shard, shards int, tier string, yield func(Case) bool) {
 	maxK := 17
 	if tier == "thorough" {
 		maxK = 20
 	}
 	counts := bigCounts(maxK, tier == "thorough")
 	for i, n := range counts {
+		if i%shards != shard {
+			continue
+		}
 		for j, s := range bigShapes(n) {
 			w, h := s[0], s[1]
 			// constructors alone (New2DFilled with an ordinary value and with the zero value) ...
@@ -117,7 +120,10 @@ func bigCases(tier string, yield func(Case) bool) {
 		}
 	}
 	// other element sizes: 1 byte, 16 bytes, 24 bytes with pointers, 96 bytes, zero-size
-	for _, T := range []string{"u8", "f64x2", "slice", "padded", "unit", "any"} {
+	for i, T := range []string{"u8", "f64x2", "slice", "padded", "unit", "any"} {
+		if i%shards != shard {
+			continue
+		}
 		for _, k := range []int{6, 9, 12, 13, 16} {
 			if k == 16 && T != "u8" && T != "unit" && tier != "thorough" {
 				continue
@@ -143,7 +149,7 @@ var specBig = pbt.Register(&pbt.Spec[Case]{
 		"(or the last row), Clone with later writes on one side, Row and RowSpan windows written through and kept, Set at the last cell, calls just outside; so filled runs and copied " +
 		"rows of every length around every power of two up to 2^17 (2^20) occur as a whole store, as one row of a rectangle and as a column; the same on the powers 6, 9, 12, 13 (16 for u8 and unit) " +
 		"for the element types u8 (1 byte), f64x2 (16), slice (24, pointers), padded (96), any, unit (zero-size); " + rule,
-	Enum: func(shard, shards int, tier string, yield func(Case) bool) { bigCases(tier, yield) },
+	Enum: func(shard, shards int, tier string, yield func(Case) bool) { bigCases(shard, shards, tier, yield) },
 	Run:  Run,
 })
 
